@@ -14,6 +14,10 @@ Only the Python oracle (plus `format(out) == out`, `--check-only`/`--check-diff`
 `ctx.violation`; Lean-vs-Python disagreement about a pair is a `ctx.disagreement`.
 The pure rewriting decisions (string-literal simplification, files([...]) flattening, sort_files order,
 escape decoding) are additionally compared one by one with the model (`simp`, `flat`, `sort`, `den`).
+The argument-list layout decision (flattening, sorting, multi-line detector, trailing-comma rule) is a Lean
+function on abstract argument lists (`MesonModel/Fmt/Layout.lean`, proved idempotent): every statement of the
+stream inside its domain is abstracted from the real parse trees (`abs_node`) and the model's `fmt` of the input
+must equal the abstraction of the real output, layout included (`layout`).
 """
 from __future__ import annotations
 
@@ -41,6 +45,7 @@ PINS = [
     'mesonbuild.mformat:ArgumentFormatter',
     'mesonbuild.mformat:ComputeLineLengths',
     'mesonbuild.mformat:MultilineArgumentDetector',
+    'mesonbuild.mformat:flattened_files_arguments',
     'mesonbuild.mformat:MultilineParenthesesDetector',
     'mesonbuild.mformat:CommentDetector',
     'mesonbuild.mformat:split_lines',
@@ -487,6 +492,110 @@ def one_factor_configs() -> T.List[T.Dict[str, T.Any]]:
     return out
 
 
+# ---- literal simplification x layout option, on minimal shapes -------------------------------------------
+# Every rewrite of a literal the formatter performs (files([...]) flattening, sort_files, triple-quoted / f-string
+# simplification, `--option value` grouping) is decided in one pass and read back by another (the multi-line
+# detector, the trailing-comma rule, the line-length splitter).  The triggers are harvested from the live source
+# and crossed with minimal argument lists (0/1/2 elements, trailing comma, one line / one per line, comment),
+# the nesting contexts the passes distinguish, and every FormatterConfig field at its non-default values.
+
+def harvest_rewrite_triggers() -> T.Dict[str, T.List[str]]:
+    """{'functions': names compared with `func_name.value` in the formatter passes,
+        'prefixes': string prefixes tested with startswith() by ArgumentFormatter (group_arg_value),
+        'keep_triple': characters that keep a triple-quoted string triple-quoted (can_be_plain_string)}"""
+    import ast as pyast
+    import inspect
+    import textwrap
+    mformat, _, _ = impl()
+    funcs: T.List[str] = []
+    prefixes: T.List[str] = []
+    keep: T.List[str] = []
+    for cls in (mformat.TrimWhitespaces, mformat.ArgumentFormatter, mformat.MultilineArgumentDetector, mformat.ComputeLineLengths):
+        try:
+            tree = pyast.parse(textwrap.dedent(inspect.getsource(cls)))
+        except Exception:
+            continue
+        for n in pyast.walk(tree):
+            if isinstance(n, pyast.Compare) and pyast.unparse(n.left).endswith('func_name.value'):
+                for c in n.comparators:
+                    for k in pyast.walk(c):
+                        if isinstance(k, pyast.Constant) and isinstance(k.value, str) and k.value not in funcs:
+                            funcs.append(k.value)
+            if isinstance(n, pyast.Call) and isinstance(n.func, pyast.Attribute) and n.func.attr == 'startswith':
+                for a in n.args:
+                    if isinstance(a, pyast.Constant) and isinstance(a.value, str) and a.value.strip() and a.value not in prefixes:
+                        prefixes.append(a.value)
+    try:
+        tree = pyast.parse(textwrap.dedent(inspect.getsource(mformat.can_be_plain_string)))
+        for n in pyast.walk(tree):
+            if isinstance(n, pyast.List):
+                keep += [e.value for e in n.elts if isinstance(e, pyast.Constant) and isinstance(e.value, str)]
+    except Exception:
+        pass
+    return {'functions': funcs, 'prefixes': [p for p in prefixes if p != '#' and p != '\\'], 'keep_triple': keep}
+
+
+def simp_family(deep: bool) -> T.List[str]:
+    trig = harvest_rewrite_triggers()
+    names = trig['functions'] or ['files']
+    pre = (trig['prefixes'] or ['--'])[0]
+    # elements: plain, simplifiable triple-quoted, f-string losing its f, triple-quoted that stays (forces a
+    # multi-line layout), grouping trigger, identifier
+    stay = "'''it's'''" if "'" in trig['keep_triple'] or not trig['keep_triple'] else "'''a\nb'''"
+    one = ["'a'", "'''b'''", "f'c'", stay, f"'{pre}o'", 'x']
+    two = [("'b'", "'a'"), (f"'{pre}o'", "'v'"), ("'a10'", "'a9'"), ("'a'", 'x')] + ([("'''b'''", "'a'")] if deep else [])
+    lists: T.List[T.List[str]] = [[]] + [[e] for e in one] + [list(p) for p in two]
+
+    def render_list(items: T.List[str], trailing: bool, multi: bool, comment: bool) -> str:
+        if not items:
+            return ('\n' if multi else '') + ('# c\n' if comment else '')
+        if not multi:
+            return ', '.join(items) + (',' if trailing else '') + (' # c\n' if comment else '')
+        t = '\n'
+        for i, it in enumerate(items):
+            last = i == len(items) - 1
+            t += '  ' + it + (',' if (not last or trailing) else '') + (' # c' if comment and i == 0 else '') + '\n'
+        return t
+    bodies: T.List[str] = []
+    for items in lists:
+        for trailing in ((False, True) if items else (False,)):
+            for multi in (False, True):
+                for comment in (False, True):
+                    if comment and trailing and not deep:
+                        continue
+                    bodies.append(render_list(items, trailing, multi, comment))
+    wrappers: T.List[T.Callable[[str], str]] = []
+    for nm in names:
+        wrappers += [lambda b, nm=nm: f'{nm}({b})', lambda b, nm=nm: f'{nm}([{b}])', lambda b, nm=nm: f'{nm}([[{b}]])',
+                     lambda b, nm=nm: f'{nm}([{b}],)', lambda b, nm=nm: f'{nm}([[{b}],])', lambda b, nm=nm: f'{nm}([{b}], k: 1)']
+        if deep:
+            wrappers += [lambda b, nm=nm: f'o.{nm}([{b}])']
+    wrappers += [lambda b: f'f({b})', lambda b: f'f([{b}])']
+    contexts = ['{}', 'g(h({}), y)', 'x = [{}]']
+    if deep:
+        contexts += ['x = {}', 'g({})', "x = {{'k': {}}}", 'o.m({})', 'g(k: {})']
+    out: T.List[str] = []
+    for b in bodies:
+        for w in wrappers:
+            s = w(b)
+            for c in contexts:
+                out.append(c.format(s) + '\n')
+    return list(dict.fromkeys(out))
+
+
+def bool_pair_configs() -> T.List[T.Dict[str, T.Any]]:
+    """every pair of boolean fields of the live FormatterConfig at their non-default values, and every boolean
+    field with every small max_line_length"""
+    bools = [k for k, v in OPTION_VALUES.items() if isinstance(v[0], bool) and k != 'use_editor_config']
+    out = []
+    for a, b in itertools.combinations(bools, 2):
+        out.append(dict(DEFAULT_CFG, **{a: OPTION_VALUES[a][1], b: OPTION_VALUES[b][1]}))
+    for a in bools:
+        for m in OPTION_VALUES.get('max_line_length', [])[1:]:
+            out.append(dict(DEFAULT_CFG, **{a: OPTION_VALUES[a][1], 'max_line_length': m}))
+    return out
+
+
 class Gen:
     """grammar-based program generator; emits tokens, `render` decorates with legal trivia"""
 
@@ -890,6 +999,200 @@ def mutate(rng: random.Random, text: str) -> str:
     return '\n'.join(lines)
 
 
+# --------------------------------------------------------------------------------------------- abstract argument lists
+# Tie of the Lean layout model (MesonModel/Fmt/Layout.lean) to the real formatter: a statement that is a
+# call / method call on an identifier / array / dict of such and of leaves is abstracted (`abs_node`) to the
+# model's `Node`; the model's `fmt` of the abstracted INPUT must equal the abstraction of the real OUTPUT,
+# including which lists are laid out one item per line.
+
+CONT_IDX = {'func': 0, 'files': 1, 'method': 2, 'array': 3, 'dict': 4}
+LAY_CFG_FIELDS = ['kwargs_force_multiline', 'no_single_comma_function', 'sort_files', 'simplify_string_literals']
+
+
+class NotAbstract(Exception):
+    pass
+
+
+def _ws(n) -> str:
+    w = getattr(n, 'whitespaces', None)
+    return w.value if w is not None else ''
+
+
+def _chk(ws: str) -> str:
+    if '\\' in ws:
+        raise NotAbstract('continuation')
+    return ws
+
+
+def string_ranks(tree) -> T.Dict[str, int]:
+    """rank of every string literal's raw value in `pathname_sort_key` order relative to the empty string, whose
+    key `sort_arguments` gives to everything that is not a string (equal keys: equal rank)"""
+    from mesonbuild.mesonlib import pathname_sort_key
+    vals: T.Set[str] = {''}
+
+    def walk(n) -> None:
+        if isinstance(n, tuple):
+            for k in (n[1] if n[0] == 'Kw' else []):
+                walk(k)
+            return
+        if type(n).__name__ == 'StringNode':
+            vals.add(n.raw_value)
+        for k in node_parts(n)[3]:
+            walk(k)
+    walk(tree)
+    keys = sorted({pathname_sort_key(v) for v in vals})
+    zero = keys.index(pathname_sort_key(''))
+    return {v: keys.index(pathname_sort_key(v)) - zero for v in vals}
+
+
+def abs_node(n, ranks: T.Dict[str, int], top: bool = False) -> T.List[str]:
+    """tokens of the model's Node in prefix notation; the 4th field of a list token is the observed layout
+    (newline after the opening bracket) — dropped from the request, compared in the answer"""
+    mformat, _, _ = impl()
+    t = type(n).__name__
+    if t in ('IdNode', 'NumberNode', 'BooleanNode'):
+        return ['L0']
+    if t == 'StringNode':
+        k = ranks.get(n.raw_value, 0)
+        if n.is_multiline:
+            return [f'M{k}:{int(bool(mformat.can_be_plain_string(n)))}']
+        return [f'L{k}']
+    if t == 'ArrayNode':
+        cont, op, cl, args = 'array', n.lbracket, n.rbracket, n.args
+    elif t == 'DictNode':
+        cont, op, cl, args = 'dict', n.lcurl, n.rcurl, n.args
+    elif t == 'FunctionNode':
+        cont, op, cl, args = ('files' if n.func_name.value == 'files' else 'func'), n.lpar, n.rpar, n.args
+        if _ws(n.func_name).strip():
+            raise NotAbstract('trivia after the function name')
+    elif t == 'MethodNode':
+        if type(n.source_object).__name__ != 'IdNode':
+            raise NotAbstract('method on ' + type(n.source_object).__name__)
+        cont, op, cl, args = 'method', n.lpar, n.rpar, n.args
+        if (_ws(n.source_object) + _ws(n.dot) + _ws(n.name)).strip():
+            raise NotAbstract('trivia inside the method reference')
+    else:
+        raise NotAbstract(t)
+    if not top and '#' in _chk(_ws(cl)) + _chk(_ws(n)):
+        raise NotAbstract('comment after a closing bracket')
+    co = '#' in _chk(_ws(op))
+    ci = '#' in _chk(_ws(args)) or any('#' in _chk(_ws(c)) for c in list(args.commas) + list(args.colons))
+    items: T.List[T.List[str]] = []
+    for a in args.arguments:
+        toks = abs_node(a, ranks)
+        if toks[0][0] in 'LM' and '#' in _chk(_ws(a)):
+            ci = True
+        items.append(toks)
+    for k, v in args.kwargs.items():
+        if type(k).__name__ not in ('IdNode', 'StringNode') or (type(k).__name__ == 'StringNode' and k.is_multiline):
+            raise NotAbstract('key ' + type(k).__name__)
+        if '#' in _chk(_ws(k)):
+            ci = True
+        toks = abs_node(v, ranks)
+        if toks[0][0] in 'LM' and '#' in _chk(_ws(v)):
+            ci = True
+        kk = ranks.get(k.raw_value, 0) if type(k).__name__ == 'StringNode' else 0
+        items.append([f'K{kk}'] + toks)
+    nitems = len(items)
+    tr = nitems > 0 and len(args.commas) == nitems
+    ml = '-' if not nitems else str(int('\n' in _ws(op)))
+    out = [f'C{CONT_IDX[cont]}:{nitems}:{int(tr)}{int(ci)}{int(co)}:{ml}']
+    for toks in items:
+        out += toks
+    return out
+
+
+def abs_statements(tree) -> T.List[T.Optional[T.List[str]]]:
+    ranks = string_ranks(tree)
+    out: T.List[T.Optional[T.List[str]]] = []
+    for st in tree.lines:
+        n = st
+        if type(n).__name__ == 'AssignmentNode':
+            n = n.value
+        try:
+            toks = abs_node(n, ranks, top=True)
+            out.append(toks if toks[0][0] == 'C' else None)
+        except Exception:   # NotAbstract, or a shape of the tree this adapter does not know
+            out.append(None)
+    return out
+
+
+def lay_request(toks: T.List[str]) -> str:
+    return ' '.join(t.rsplit(':', 1)[0] if t[0] == 'C' else t for t in toks)
+
+
+def lay_cases(text: str, tin, tout, cfg: T.Dict[str, T.Any]) -> T.List[T.Tuple[str, str, str]]:
+    """(configuration bits, abstracted input statement, abstracted output statement with its observed layout) for
+    every statement inside the model's domain; nothing when a line could reach max_line_length (a statement
+    printed on one line is no longer than its source without line breaks plus one blank per line joined)"""
+    if len(tin.lines) != len(tout.lines):
+        return []
+    bound = sum(len(l.strip()) + 2 for l in text.split('\n')) + 8
+    if bound > cfg.get('max_line_length', 80):
+        return []
+    a_in, a_out = abs_statements(tin), abs_statements(tout)
+    bits = ''.join(str(int(bool(cfg[f]))) for f in LAY_CFG_FIELDS)
+    return [(bits, lay_request(i), ' '.join(o)) for i, o in zip(a_in, a_out) if i is not None and o is not None]
+
+
+def lay_program(rng: random.Random) -> str:
+    """random statements of the layout model's domain with legal trivia: calls (files among them), method calls,
+    arrays, dicts; 0-3 items; trailing commas; line breaks; comments after the opening bracket or after a leaf"""
+    def leaf() -> str:
+        return rng.choice(["'a'", "'b'", "'a10'", "'a9'", 'x', '1', "'''c'''", "'''it's'''", "f'd'", "'--o'", "'v'", 'true'])
+
+    def gap() -> str:
+        return rng.choice(['', ' ', ' ', '\n', '\n  ', '  '])
+
+    def node(d: int) -> str:
+        if d <= 0 or rng.random() < 0.35:
+            return leaf()
+        k = rng.random()
+        n = rng.choice([0, 1, 1, 1, 2, 2, 3])
+        if k < 0.3:
+            op, cl, kind = 'files(', ')', 'call'
+        elif k < 0.5:
+            op, cl, kind = rng.choice(['f(', 'g(', 'executable(']), ')', 'call'
+        elif k < 0.6:
+            op, cl, kind = 'o.' + rng.choice(['m', 'files']) + '(', ')', 'call'
+        elif k < 0.9:
+            op, cl, kind = '[', ']', 'array'
+        else:
+            op, cl, kind = '{', '}', 'dict'
+        t = op
+        if rng.random() < 0.08:
+            t += ' # co\n'
+        else:
+            t += gap()
+        nkw = rng.randint(0, n) if kind == 'call' and rng.random() < 0.3 else (n if kind == 'dict' else 0)
+        for i in range(n):
+            v = node(d - 1)
+            if i >= n - nkw:
+                t += f"'{rng.choice('klm')}{i}'" if kind == 'dict' else f"{rng.choice(['k', 'l', 'sources'])}{i}"
+                t += rng.choice([':', ' : ', ': ']) + v
+            else:
+                t += v
+            is_leaf = v[-1] not in ')]}'
+            last = i == n - 1
+            if is_leaf and rng.random() < 0.06:
+                t += ' # ci\n'
+            if (not last) or rng.random() < 0.4:
+                t += gap() + ','
+                t += ' # cc\n' if rng.random() < 0.05 else gap()
+            else:
+                t += gap()
+        return t + cl
+    out = []
+    for _ in range(rng.randint(1, 3)):
+        st = node(rng.choice([1, 2, 2, 3, 3]))
+        while st[-1] not in ')]}':
+            st = node(2)
+        if rng.random() < 0.3:
+            st = 'x = ' + st
+        out.append(st + rng.choice(['', '  # end']) + '\n')
+    return ''.join(out)
+
+
 # --------------------------------------------------------------------------------------------- running one pair
 
 _FMT_CACHE: T.Dict[str, T.Any] = {}
@@ -999,7 +1302,7 @@ def effective_cfg(fm) -> T.Dict[str, T.Any]:
 
 
 def run_pair(text: str, cfgdir: str, cfgid: T.Any, cfg: T.Optional[T.Dict[str, T.Any]], want_ser: bool = True,
-             fm: T.Any = None, path: T.Optional[Path] = None) -> T.Dict[str, T.Any]:
+             fm: T.Any = None, path: T.Optional[Path] = None, want_lay: bool = False) -> T.Dict[str, T.Any]:
     """format `text`; evaluate the Python oracle; returns a result record (picklable).
     Violation keys name the root cause where a counterfactual re-run (one option switched off) or the
     location of the difference identifies it; everything else gets a generic key (never a known finding)."""
@@ -1066,6 +1369,11 @@ def run_pair(text: str, cfgdir: str, cfgid: T.Any, cfg: T.Optional[T.Dict[str, T
     if want_ser:
         res['ser_in'] = ser(tin)
         res['ser_out'] = ser(tout)
+    if want_lay:
+        try:
+            res['lay'] = lay_cases(text, tin, tout, cfg)
+        except Exception as e:   # a shape change of the implementation is an outcome, not a crash
+            res['lay_error'] = type(e).__name__
     # -- same program
     sk_in = py_canon(py_skel(tin), sort_on)
     sk_out = py_canon(py_skel(tout), sort_on)
@@ -1542,6 +1850,8 @@ TARGETED: T.List[T.Tuple[str, T.Dict[str, T.Any]]] = [
     ("f('a',)\n", {'no_single_comma_function': True}),              # was idempotence:no_single_comma_function (fixed a1ee46c)
     ("f(\n  'a',\n)\n", {'no_single_comma_function': True}), ("f('''a''')\n", {'no_single_comma_function': True}),
     ("f(g(a,))\no.m(x.n(1,),)\nf([a,],)\n", {'no_single_comma_function': True}),
+    ("g(files([x,]))\n", {'no_single_comma_function': True}), ("g(h(files(['a',])), y)\n", {'no_single_comma_function': True}),   # fixed e587c4a
+    ("g(files([['a'],]))\ng(files([['a',],],))\n", {'no_single_comma_function': True}),   # fixed f78386e
     ("p('' # c\n,)\n", {'no_single_comma_function': True}),        # idempotence:no_single_comma_function:trivia-before-removed-comma
     ("b + se[is_variable('fo/b10.c', 'x@y', '9')[d(s)]]\n", {'no_single_comma_function': True, 'max_line_length': 40}),   # ...:line-length-split
     ("x = 1 # a\x0cb\n# c\x0bd\ny = [ # e\x1c# f\n 'p\x0cq', # g\x85h\n]\n", {}),   # was comments:changed (fixed 4b43278)
@@ -1804,13 +2114,21 @@ def _job(a: T.Tuple[str, T.List[T.Dict[str, T.Any]], str, T.Any]) -> T.List[T.Di
             text = gen_program(rng, rng.choice([1, 2, 3, 5]), rng.choice([0.0, 0.2, 0.5, 0.8]))
             for ci in rng.sample(range(len(cfgs)), per):
                 items.append(('gen', text, ci))
+    elif kind == 'lay':
+        seed, n, per, idx = payload
+        rng = random.Random(seed)
+        for _ in range(n):
+            text = lay_program(rng)
+            for ci in rng.sample(idx, per):
+                items.append(('lay', text, ci))
     else:
         items = payload
     for origin, text, ci in items:
-        r = run_pair(text, cfgdir, ci, cfgs[ci])
+        r = run_pair(text, cfgdir, ci, cfgs[ci], want_ser=origin not in ('simp-shape', 'lay') or zlib.crc32(text.encode()) % 4 == 0,
+                     want_lay=origin in ('lay', 'shape', 'simp-shape', 'targeted'))
         r['origin'] = origin
         crc = zlib.crc32(text.encode('utf-8', 'surrogatepass'))
-        if r['status'] == 'ok' and '\r' not in r['out'] and (origin not in ('gen', 'shape') or crc % 8 == 0):
+        if r['status'] == 'ok' and '\r' not in r['out'] and (origin not in ('gen', 'shape', 'simp-shape', 'lay') or crc % (32 if origin in ('simp-shape', 'lay') else 8) == 0):
             eol = cfgs[ci]['end_of_line']
             r['viol'] += check_cli(text, cfgdir, ci, r['out'], eol, FILE_NEWLINES[(crc // 8 + ci) % 3])
             r['cli'] = True
@@ -1964,6 +2282,26 @@ def build_cases(ctx: Ctx, cfgs: T.List[T.Dict[str, T.Any]], cfgdir: str) -> T.Li
             items.append(('shape', sh, ci))
     for i in range(0, len(items), 400):
         jobs.append((cfgdir, cfgs, 'texts', items[i:i + 400]))
+    # literal simplification x layout option on minimal shapes (triggers harvested from the live source)
+    simp = simp_family(ctx.deep)
+    ctx.extra['simplification_layout_family'] = len(simp)
+    ctx.extra['rewrite_triggers_harvested'] = harvest_rewrite_triggers()
+    items = []
+    # quick size: every text under the default and every one-field variation of a boolean field, and under a third
+    # of the other one-field variations (rotating with the text); thorough size: under all of them
+    of_bool = [ci for ci in OF_IDX if all(isinstance(v, bool) for v in nondefault(cfgs[ci]).values())]
+    of_other = [ci for ci in OF_IDX if ci not in of_bool]
+    for k, sh in enumerate(simp):
+        pairs = rng.sample(BP_IDX, min(ctx.scale(3, 12), len(BP_IDX)))
+        others = of_other if ctx.deep else [ci for j, ci in enumerate(of_other) if (j + k) % 3 == 0]
+        for ci in dict.fromkeys(of_bool + others + pairs):
+            items.append(('simp-shape', sh, ci))
+    for i in range(0, len(items), 600):
+        jobs.append((cfgdir, cfgs, 'texts', items[i:i + 600]))
+    # statements of the Lean layout model's domain x every combination of the options it reads
+    nlay = ctx.scale(3000, 30000)
+    for _ in range(nlay // 250):
+        jobs.append((cfgdir, cfgs, 'lay', (rng.getrandbits(48), 250, 2, list(LAY_IDX))))
     # configuration sources (where each setting comes from) x CLI leg
     scen = config_source_scenarios(ctx.deep)
     ctx.extra['config_source_scenarios'] = len(scen)
@@ -2006,6 +2344,25 @@ def build_cases(ctx: Ctx, cfgs: T.List[T.Dict[str, T.Any]], cfgdir: str) -> T.Li
 
 TARGET_IDX: T.List[int] = []
 OF_IDX: T.List[int] = []
+BP_IDX: T.List[int] = []
+LAY_IDX: T.List[int] = []
+
+
+def layout_configs(rng: random.Random) -> T.List[T.Dict[str, T.Any]]:
+    """every combination of the options the Lean layout model reads, with a line length nothing reaches; once with
+    the other fields at their defaults and once with random values (the model claims they do not matter)"""
+    out = []
+    wide = max([v for v in OPTION_VALUES.get('max_line_length', [80]) if isinstance(v, int)] + [80])
+    for bits in itertools.product([False, True], repeat=len(LAY_CFG_FIELDS)):
+        c = dict(DEFAULT_CFG, max_line_length=wide)
+        c.update({f: b for f, b in zip(LAY_CFG_FIELDS, bits) if f in c})
+        out.append(c)
+        c2 = dict(c)
+        for k, vals in OPTION_VALUES.items():
+            if k not in LAY_CFG_FIELDS and k not in ('max_line_length', 'tab_width', 'use_editor_config'):
+                c2[k] = rng.choice(vals)
+        out.append(c2)
+    return out
 _NBASE = 0
 
 
@@ -2055,6 +2412,20 @@ def run(ctx: Ctx) -> None:
             else:
                 cfgs.append(c)
                 OF_IDX.append(len(cfgs) - 1)
+        BP_IDX.clear()
+        for c in bool_pair_configs():
+            if c in cfgs:
+                BP_IDX.append(cfgs.index(c))
+            else:
+                cfgs.append(c)
+                BP_IDX.append(len(cfgs) - 1)
+        LAY_IDX.clear()
+        for c in layout_configs(rng):
+            if c in cfgs:
+                LAY_IDX.append(cfgs.index(c))
+            else:
+                cfgs.append(c)
+                LAY_IDX.append(len(cfgs) - 1)
         write_cfgs(cfgdir, cfgs)
         ctx.extra['configurations'] = len(cfgs)
         ctx.extra['options_enumerated_from_live_FormatterConfig'] = {k: [repr(v) for v in vs] for k, vs in OPTION_VALUES.items()}
@@ -2155,6 +2526,26 @@ def process(ctx: Ctx, results: T.List[T.Dict[str, T.Any]], cfgs: T.List[T.Dict[s
                 exp = enc_list(lex_comments(r['text']))
                 if a != exp:
                     ctx.disagreement({'kind': 'comments', 'text': r['text'], 'lean': a[:200], 'python': exp[:200]})
+    # Lean layout model: fmt(abstracted input statement) == abstracted real output, layout included
+    lay_lines, lay_meta = [], []
+    for r in results:
+        if r.get('lay_error'):
+            ctx.tag('layout:adapter-error:' + r['lay_error'])
+        for bits, req, exp in r.get('lay', []):
+            lay_lines.append(f'layout {bits}|{req}')
+            lay_meta.append((exp, r))
+    ctx.extra['layout_model_statements'] = len(lay_lines)
+    if not lay_lines:
+        ctx.obligation_failed('layout-correspondence', 'no statement of the generated stream could be abstracted to the layout model '
+                              '(shape of mparser nodes changed?)')
+    elif ctx.model_available:
+        ans = ctx.driver('fmt', lay_lines)
+        for a, (exp, r) in zip(ans, lay_meta):
+            checked += 1
+            ctx.tag('layout:' + ('agree' if a == exp else 'DISAGREE'))
+            if a != exp:
+                ctx.disagreement({'kind': 'layout', 'text': r['text'], 'cfg': nondefault(cfgs[r['cfgid']]) if isinstance(r['cfgid'], int) else r.get('eff_cfg'),
+                                  'out': r.get('out'), 'lean': a[:400], 'impl': exp[:400]})
     ctx.extra['disagreements_checked'] = checked
     ctx.extra['pairs_validated_by_lean_checker'] = checked
     tables = ctx.driver('fmt', ['tables'])[0] if ctx.model_available else ''
@@ -2172,7 +2563,14 @@ def search(ctx: Ctx, disagreements: T.List[dict]) -> None:
         return
     cfgdir = common.scratch_dir('mverif-c16s-')
     try:
-        cfgs = [dict(DEFAULT_CFG), dict(DEFAULT_CFG, sort_files=True), dict(DEFAULT_CFG, simplify_string_literals=False)]
+        cfgs = [dict(DEFAULT_CFG), dict(DEFAULT_CFG, sort_files=True), dict(DEFAULT_CFG, simplify_string_literals=False),
+                dict(DEFAULT_CFG, no_single_comma_function=True), dict(DEFAULT_CFG, kwargs_force_multiline=True)]
+        for d in disagreements:   # the configuration under which model and implementation disagreed
+            if isinstance(d.get('cfg'), dict):
+                c = dict(DEFAULT_CFG)
+                c.update({k: v for k, v in d['cfg'].items() if k in c})
+                if c not in cfgs:
+                    cfgs.append(c)
         write_cfgs(cfgdir, cfgs)
         texts: T.List[str] = []
         for cp in range(32, 127):
@@ -2198,6 +2596,10 @@ def search(ctx: Ctx, disagreements: T.List[dict]) -> None:
                     texts.append(inp[1] + '\n')
             elif d.get('text'):
                 texts.append(d['text'])
+                if d.get('kind') == 'layout':   # each statement alone, and nested in the contexts the passes distinguish
+                    for st in d['text'].split('\n'):
+                        if st.strip() and st.rstrip()[-1:] in ')]}':
+                            texts += [st + '\n', f'g({st})\n', f'g(h({st}), y)\n', f'x = [{st}]\n']
         for text in texts:
             for ci in range(len(cfgs)):
                 r = run_pair(text, cfgdir, ci, cfgs[ci], want_ser=False)
